@@ -230,7 +230,8 @@ def close_and_judge(w0, bad):
         if ex.status == X.PENDING_NEW and name in ("leaves_qty",):
             continue
         try:
-            ok = abs(float(got) - float(want)) <= 1e-9
+            # relative: magnitudes reach down to 1e-5 and up to 1e16; values travel as decimal strings, so only arithmetic noise is tolerated
+            ok = abs(float(got) - float(want)) <= 1e-9 * max(abs(float(got)), abs(float(want)))
         except Exception:
             ok = False
         if not ok:
